@@ -54,13 +54,14 @@ class _Continue(Exception):
 # --------------------------------------------------------------------------- paths and obligations
 
 class Obligation:
-    __slots__ = ("name", "kind", "status", "model", "detail", "pc_size", "time", "path_id", "reason", "backend")
+    __slots__ = ("name", "kind", "status", "model", "detail", "pc_size", "time", "path_id", "reason", "backend", "imprecise")
 
     def __init__(self, name, kind):
         self.name, self.kind = name, kind
         self.status, self.model, self.detail, self.pc_size, self.time = None, None, "", 0, 0.0
         self.path_id, self.reason = None, ""
         self.backend = "z3"
+        self.imprecise = False
 
 
 class Path:
@@ -79,6 +80,7 @@ class Path:
         self.trace = []            # human-readable branch trace
         self.lemma_pos = 0
         self.maps_used = {}        # comprehension maps built on this path (map extensionality)
+        self.imprecise = False     # a loop was cut without an invariant: failing posts need a confirming replay
         self.reads = []            # attribute reads on tracked objects (read frames)
         self.writes = []           # heap writes to pre-existing objects (frames)
 
@@ -113,7 +115,14 @@ class Path:
 
     def feasible(self, cond):
         self.flush_lemmas()
-        r = self.solver.check(cond)
+        # push/add/check/pop rather than check(assumption): z3 5.1 crashes (SIGSEGV) in check-with-assumptions on some
+        # queries mixing recursive functions and strings
+        self.solver.push()
+        try:
+            self.solver.add(cond)
+            r = self.solver.check()
+        finally:
+            self.solver.pop()
         return r != z3.unsat
 
     def branch(self, cond, label=""):
@@ -158,6 +167,7 @@ class Path:
         ob.detail = detail
         ob.pc_size = len(self.pc)
         ob.path_id = tuple(self.decisions[:self.pos])
+        ob.imprecise = self.imprecise
         t0 = time.time()
         if isinstance(formula, bool):
             formula = z3.BoolVal(formula)
@@ -217,6 +227,10 @@ class Path:
         s.set("timeout", timeout_ms)
         s.add(z3.Not(f))
         r = s.check()
+        if r == z3.unknown and self.ctx.use_cvc5:
+            from .backends import cvc5_check
+            if cvc5_check(s.to_smt2(), timeout_ms * 2) == "unsat":
+                r = z3.unsat
         s.pop()
         s.set("timeout", self.ctx.branch_timeout_ms)
         return r == z3.unsat
@@ -701,8 +715,21 @@ class Interp:
             return list(v)
         if isinstance(v, SV):
             t = v.t
-            seq = z3.If(V.is_VTuple(t), V.vt(t), V.vl(t))
-            self.p.oblige("no-raise@unpack", z3.And(z3.Or(V.is_VTuple(t), V.is_VList(t)), V.vl_len(seq) == n), "no-raise")
+            if self.models.entailed(self, V.is_VTuple(t)):
+                seq = V.vt(t)
+            elif self.models.entailed(self, V.is_VList(t)):
+                seq = V.vl(t)
+            else:
+                seq = z3.If(V.is_VTuple(t), V.vt(t), V.vl(t))
+                self.p.oblige("no-raise@unpack", z3.Or(V.is_VTuple(t), V.is_VList(t)), "no-raise")
+            l, conj = seq, []
+            for _ in range(n):
+                conj.append(V.is_VCons(l))
+                l = V.tl(l)
+            conj.append(V.is_VNil(l))
+            exact = z3.And(*conj)
+            if not self.models.entailed(self, exact):
+                self.p.oblige("no-raise@unpack", exact, "no-raise", detail="ValueError: wrong number of values to unpack")
             return [SV(V.nth(seq, i)) for i in range(n)]
         raise Unsupported(f"unpack of {type(v)}")
 
